@@ -297,6 +297,17 @@ type typedCase struct {
 	mk   func() interface{}
 }
 
+func abortedRawDecode() {
+	defer func() { recover() }()
+	var p internal.Prop
+	doc := `<D:prop xmlns:D="DAV:"><D:current-user-principal><D:href>http://[::1/x</D:href><D:unauthenticated/><D:more><D:deep/></D:more></D:current-user-principal></D:prop>`
+	if err := xml.Unmarshal([]byte(doc), &p); err != nil || len(p.Raw) == 0 {
+		return
+	}
+	var cup internal.CurrentUserPrincipal
+	p.Raw[0].Decode(&cup) // fails in Href.UnmarshalText while the rest of the element is still unread
+}
+
 func emitRawTyped(o *Out, tc typedCase) {
 	res := guard(func() string {
 		direct := tc.mk()
@@ -316,6 +327,11 @@ func emitRawTyped(o *Out, tc typedCase) {
 		}
 		if raw == nil {
 			return "capture-failed"
+		}
+		// history: decodes that broke off INSIDE a child element of an unrelated captured value come first (whatever a
+		// decoder keeps between calls - a pooled reader, a buffer - must not show in the next value decoded)
+		for k := 0; k < 3; k++ {
+			abortedRawDecode()
 		}
 		errV := raw.Decode(via)
 		if (errD == nil) != (errV == nil) {
